@@ -45,4 +45,4 @@ list | while IFS=$'\t' read -r name props diff; do
     echo -e "$name\t$p\texit=$rc\t$tests\t$(( $(date +%s) - t0 ))s\t$cls" | tee -a "$OUT"
   done
 done
-rm -rf /verif/replays
+
